@@ -70,6 +70,8 @@ def run_obligation(o, tier, seed):
         res.update(paths=m["paths"], decisions=m["decisions"], queries=m["queries"], solver_s=m["solver_s"])
         tw = r.get("twin") or {}
         res["reach_witness"] = tw.get("witness")
+        if tw.get("tags"):
+            res["reach_tags"] = tw["tags"]          # witness per named branch that must be reachable on its own
         v = r["verdict"]
         if v == "CONFIRMED":
             if tw.get("reached"):
@@ -255,7 +257,7 @@ def main():
             "solver_time_s": round(sum(float(r.get("solver_s") or 0) for r in results), 2),
             "exhaustive": False,
             "per_obligation": [{k: r.get(k) for k in ("name", "engine", "verdict", "bounds", "stubs", "paths", "decisions", "queries",
-                                                        "solver_s", "wall_s", "reach_witness", "functions", "detail", "note", "extra",
+                                                        "solver_s", "wall_s", "reach_witness", "reach_tags", "functions", "detail", "note", "extra",
                                                         "replay_files")} for r in results],
             "outside_claim": meta.get("outside", []),
             "known_findings": known_lines,
